@@ -92,11 +92,37 @@ def check_graph(ch, n, graph, spinful, exhaustive):
         vvals = {e: vv for e in edges}
         t_arg, U_arg, mu_arg, V_arg = tv, uv, mv, vv
     else:
-        tvals = {e: tval(f"t{k}") for k, e in enumerate(edges)}
-        vvals = {e: tval(f"V{k}") for k, e in enumerate(edges)}
-        uvals = {s: val(f"U{k}") for k, s in enumerate(used)}
-        muvals = {s: cast(ch.choice([-2, 0, 0, 1, 3], f"mu{k}"))
-                  for k, s in enumerate(used)}
+        vary = ch.choice(["all", "all", "one-mu", "one-U", "one-t", "one-V"],
+                         "vary")
+        if vary == "all":
+            tvals = {e: tval(f"t{k}") for k, e in enumerate(edges)}
+            vvals = {e: tval(f"V{k}") for k, e in enumerate(edges)}
+            uvals = {s: val(f"U{k}") for k, s in enumerate(used)}
+            muvals = {s: cast(ch.choice([-2, 0, 0, 1, 3], f"mu{k}"))
+                      for k, s in enumerate(used)}
+        else:
+            # a regular lattice with a single impurity: every coefficient is
+            # the same everywhere except one site's mu / U or one bond's t / V
+            # (bonds that agree in all but one parameter)
+            tb, vb, ub = tval("t"), tval("V"), val("U")
+            mb = cast(ch.choice([-2, 0, 1, 3], "mu"))
+            tvals = {e: tb for e in edges}
+            vvals = {e: vb for e in edges}
+            uvals = {s: ub for s in used}
+            muvals = {s: mb for s in used}
+            if vary in ("one-mu", "one-U"):
+                s1 = ch.choice(used, "impurity-site")
+                if vary == "one-mu":
+                    muvals[s1] = mb + cast(ch.choice([-3, 1, 2], "dmu"))
+                else:
+                    uvals[s1] = ub + cast(ch.choice([-5, 1, 2], "dU"))
+            else:
+                e1 = ch.choice(edges, "impurity-bond")
+                if vary == "one-t":
+                    tvals[e1] = tb + cast(ch.choice([-2, 1, 5], "dt"))
+                else:
+                    vvals[e1] = vb + cast(ch.choice([-2, 1, 5], "dV"))
+        ch.label(f"vary={vary}")
         if form == "dict":
             t_arg = {(e if ch.boolean(f"tk{k}") else e[::-1]): v
                      for k, (e, v) in enumerate(tvals.items())}
@@ -272,10 +298,11 @@ def law_random(ch):
     spinful = ch.boolean("spinful")
     n = ch.integer(2, 4 if spinful else 6, "n")
     pairs = list(itertools.combinations(range(n), 2))
-    k = ch.integer(1, min(len(pairs), 7), "nedges")
-    sel = ch.subset(pairs, "edges", min_size=1) if len(pairs) <= 10 else \
-        [pairs[i] for i in ch.perm(5, "x")]
-    sel = sel[:k] or [pairs[0]]
+    from hypothesis import strategies as st
+
+    sel = ch.draw(st.lists(st.sampled_from(pairs), unique=True, min_size=1,
+                           max_size=min(len(pairs), 7)), "edges")
+    sel = [tuple(e) for e in sel]
     used = sorted({v for e in sel for v in e})
     relabel = {v: i for i, v in enumerate(used)}
     graph = [[relabel[a], relabel[b]] for a, b in sel]
